@@ -1,6 +1,6 @@
 (** Property C12 -- the result is independent of how the input is chunked.
     Only pinned statements, closed by [exact], with their assumptions printed. *)
-From Avt Require Import Oracles.Rel Proofs.Inv Proofs.ParamDT Proofs.ParamChop.
+From Avt Require Import Oracles.Rel Proofs.Inv Proofs.ParamDT Proofs.ParamChop Proofs.ChunkSessions.
 
 (** Unlimited scrollback: feeding s1 ++ s2 in one call, or s1 and then s2 in two calls (cut anywhere, also inside an escape sequence), from any state satisfying the invariant whose parked buffer has the current geometry, ends in states with equal parsers, equal visible screens, cursors, modes, and equal lines() - on the primary and on the alternate screen, RIS allowed. (By induction any chunking; limited scrollback: see C12_dirty_trim_irrelevant and DESIGN.md.) *)
 Theorem C12_chunks : forall v s1 s2 va oa v1 o1 vb ob, TInv (vterm v) -> parked_ok (vterm v) -> sb_limit (vterm v) = None -> feed_str v (s1 ++ s2) = Ok (va, oa) -> feed_str v s1 = Ok (v1, o1) -> feed_str v1 s2 = Ok (vb, ob) -> holds_C12 va vb = true.
@@ -24,3 +24,25 @@ Theorem C12_flush : forall v v' o, sb_limit (vterm v) = None -> TInv (vterm v) -
 Proof. exact flush_unlimited. Qed.
 Check C12_flush : forall v v' o, sb_limit (vterm v) = None -> TInv (vterm v) -> active (vterm v) = Primary -> vt_flush v = Ok (v', o) -> Rdt (vterm v) (vterm v') /\ vparser v' = vparser v /\ o_drained o = [].
 Print Assumptions C12_flush.
+
+(** EVERY scrollback limit: any two ways of cutting the same character stream into feed_str calls (empty chunks, cuts inside
+    escape sequences, RIS allowed), from any state satisfying the invariant, end with equal parsers and the same visible screen,
+    cursor, modes, margins, tabs, charsets and saved contexts ([Rvis]: every scalar field, view + geometry of the active buffer,
+    and of the parked primary while the alternate screen shows) *)
+Theorem C12_sessions : forall v ss1 ss2 v1 o1 v2 o2, TInv (vterm v) -> parked_ok (vterm v) -> concat ss1 = concat ss2 -> run_session v ss1 = Ok (v1, o1) -> run_session v ss2 = Ok (v2, o2) -> vparser v1 = vparser v2 /\ Rvis (vterm v1) (vterm v2).
+Proof. exact C12_sessions_from. Qed.
+Check C12_sessions : forall v ss1 ss2 v1 o1 v2 o2, TInv (vterm v) -> parked_ok (vterm v) -> concat ss1 = concat ss2 -> run_session v ss1 = Ok (v1, o1) -> run_session v ss2 = Ok (v2, o2) -> vparser v1 = vparser v2 /\ Rvis (vterm v1) (vterm v2).
+Print Assumptions C12_sessions.
+
+(** feed() one character at a time (no end-of-call work at all) against any feed_str chunking: same parser, same visible
+    state. (lines() on the alternate screen is NOT claimed: known finding KF-C12-1.) *)
+Theorem C12_perchar : forall v0 s ss u v o, TInv (vterm v0) -> parked_ok (vterm v0) -> feed_chars v0 s = Ok u -> run_session v0 ss = Ok (v, o) -> concat ss = s -> vparser u = vparser v /\ Rvis (vterm u) (vterm v).
+Proof. exact C12_perchar_from. Qed.
+Check C12_perchar : forall v0 s ss u v o, TInv (vterm v0) -> parked_ok (vterm v0) -> feed_chars v0 s = Ok u -> run_session v0 ss = Ok (v, o) -> concat ss = s -> vparser u = vparser v /\ Rvis (vterm u) (vterm v).
+Print Assumptions C12_perchar.
+
+(** unlimited scrollback: additionally the same lines() - the full executable statement *)
+Theorem C12_sessions_unlimited : forall c r ss1 ss2 v1 o1 v2 o2, concat ss1 = concat ss2 -> run_session (vt_new c r None) ss1 = Ok (v1, o1) -> run_session (vt_new c r None) ss2 = Ok (v2, o2) -> holds_C12 v1 v2 = true.
+Proof. exact C12_sessions_unlimited. Qed.
+Check C12_sessions_unlimited : forall c r ss1 ss2 v1 o1 v2 o2, concat ss1 = concat ss2 -> run_session (vt_new c r None) ss1 = Ok (v1, o1) -> run_session (vt_new c r None) ss2 = Ok (v2, o2) -> holds_C12 v1 v2 = true.
+Print Assumptions C12_sessions_unlimited.
